@@ -239,6 +239,7 @@ def check(run, M, tier):
 
         def assign(self, tgt, val, st, node):
             if isinstance(tgt, ast.Subscript) and unparse(tgt.value) in retn:
+                st.env["__rf_sample__"] = val   # the hard pulse emitted for this step
                 return
             return SimVN.assign(self, tgt, val, st, node)
     outs = [o for o in PeelVN(M, f, real={lv}).run(stm, State(env)) if o.status == "live"]
@@ -253,3 +254,18 @@ def check(run, M, tier):
         for what, held, detail in obs:
             run.check(held, "Q4", "ab2rf peel " + what, f.loc(loop[0]), what, "ab2rf: the backward recursion step violates %s (normalises to %s)" % (what, detail), stmt="Q4:" + what)
     run.floor("Q4", 1, 1 if ok_any else 0, "peel steps analysed")
+    # ---- Q5: the emitted sample and the peel matrix describe the same hard pulse
+    run.rule("Q5", "ab2rf: the sample written for a step is 2*atan2(|s|, c)*exp(i*angle(s)) for the very (c, s) = (M00, M01) of the matrix that peels that step "
+                   "(one conjugation convention for the recursion and for the emitted pulse; a mismatch returns the conjugate pulse, whose response is the mirror image)")
+    for o in outs:
+        got = o.env.get("__rf_sample__")
+        ca = T.linear_coeffs(o.env.get(pa), ["a", "b"]) if isinstance(o.env.get(pa), T.Poly) else None
+        if ca is None or not isinstance(got, T.Poly):
+            run.bad("Q5", "ab2rf sample", f.loc(loop[0]), "ab2rf: the emitted sample or the peel matrix could not be read off the loop body", stmt="Q5:shape")
+            continue
+        M00, M01 = ca[0]["a"], ca[0]["b"]
+        want = PeelVN(M, f, real={lv}).ev(ast.parse("2 * np.arctan2(np.abs(S_), C_) * np.exp(1j * np.angle(S_))", mode="eval").body, State({"S_": M01, "C_": M00}))
+        run.check(T.eq(got, want), "Q5", "ab2rf sample", f.loc(loop[0]), "rf[j] = 2*atan2(|M01|, M00)*exp(i*angle(M01))",
+                  "ab2rf writes %s for a step whose peel matrix has (M00, M01) = (%s, %s); the hard pulse removed by that matrix is 2*atan2(|M01|, M00)*exp(i*angle(M01)) = %s "
+                  "(with the conjugation on the other side the returned pulse is conj(rf): its simulated response is |B(-w)| instead of |B(w)|)"
+                  % (T.show(got, 160), T.show(M00, 60), T.show(M01, 80), T.show(want, 160)), stmt="Q5:sample")
